@@ -47,6 +47,11 @@ func (c vCfgT) item(k, v byte) []byte {
 		}
 		return KVToBytes([]byte{k}, val)
 	}
+	// default comparator (the whole item is the key): with vlens > 1 odd keys are two bytes long {k, 1}, even keys one
+	// byte {k}, so items of different lengths are in play while the key byte still identifies and orders the item
+	if vBound("vlens") > 1 && k%2 == 1 {
+		return []byte{k, 1}
+	}
 	return []byte{k}
 }
 
@@ -70,6 +75,15 @@ func (c vCfgT) decode(bs []byte) (k, v int, ok bool) {
 			}
 		}
 		return int(bs[2]), int(bs[3]), true
+	}
+	if vBound("vlens") > 1 {
+		if len(bs) == 2 && bs[1] == 1 && bs[0]%2 == 1 {
+			return int(bs[0]), 0, true
+		}
+		if len(bs) == 1 && bs[0]%2 == 0 {
+			return int(bs[0]), 0, true
+		}
+		return 0, 0, false
 	}
 	if len(bs) != 1 {
 		return 0, 0, false
